@@ -10,7 +10,7 @@ def title(notes):
     for line in notes.splitlines():
         line = line.strip().lstrip("#").strip()
         if line:
-            return re.sub(r"^(C\d\d\s*(/|seeded|seed)?\s*)?(seeded\s+)?(change|seed)\s+[ABab]\s*[-:]+\s*", "", line, flags=re.I)
+            return re.sub(r"^(C\d\d\s*(/|seeded|seed)?\s*)?(seeded\s+)?(change|seed)\s+[ABab]\s*[-:\u2014\u2013]+\s*", "", line, flags=re.I)
     return ""
 def findings():
     d = json.load(open(os.path.join(V, "known_findings.json")))
